@@ -1,9 +1,13 @@
 """Run `./check ALL` on the current /repo tree; return {pid: (rc, [output lines])}."""
-import subprocess
+import os, subprocess
+REPO = os.environ.get("MATRIX_REPO", "/repo")
 
 
 def run_all(timeout=1800):
-    r = subprocess.run(['./check', 'ALL'], cwd='/verif', capture_output=True, text=True, timeout=timeout)
+    env = dict(os.environ)
+    if REPO != '/repo':
+        env.update({'VERIF_REPO': REPO, 'VERIF_CACHE_TAG': '-alt', 'VERIF_EVIDENCE': '/tmp/evidence-alt'})
+    r = subprocess.run(['./check', 'ALL'], cwd='/verif', capture_output=True, text=True, timeout=timeout, env=env)
     out, cur = {}, []
     for l in r.stdout.splitlines():
         if l.startswith('RESULT '):
